@@ -500,6 +500,9 @@ func main() {
 		violations += len(nv.recs)
 		if i >= 4 {
 			fmt.Printf("further violation class %s (%d runs), not minimised\n", fp, len(nv.recs))
+			if os.Getenv("VERIF_SHOW_ALL") != "" && nv.recs[0].Viol != nil {
+				fmt.Printf("  seed %d: %s\n", nv.recs[0].Seed, nv.recs[0].Viol.Msg)
+			}
 			continue
 		}
 		r := nv.recs[0]
